@@ -1921,6 +1921,19 @@ impl<'ast> Visitor<'ast> for LexicallyScopedDeclarationsVisitor<'_, 'ast> {
         }
     }
 
+    // SwitchStatement : switch ( Expression ) CaseBlock
+    fn visit_switch(&mut self, node: &'ast crate::statement::Switch) -> ControlFlow<Self::BreakTy> {
+        // 1. Return LexicallyScopedDeclarations of CaseBlock.
+        //
+        // Only the statement lists of the clauses contribute. The discriminant and the clause
+        // selectors are expressions: declarations inside functions nested in them must not leak
+        // into the scope of the switch.
+        for case in node.cases() {
+            self.visit_statement_list(case.body())?;
+        }
+        ControlFlow::Continue(())
+    }
+
     fn visit_labelled_item(&mut self, node: &'ast LabelledItem) -> ControlFlow<Self::BreakTy> {
         match node {
             // LabelledItem : FunctionDeclaration
